@@ -23,7 +23,7 @@ import struct
 from .. import AnalysisError
 from ..absint import (Interp, State, SeqV, IntV, BoolV, ObjV, OpaqueV, StubV, NoneV, NONE, TupleV, EnumV, Out)
 from ..linarith import LinExpr, le, lt, ge, gt, eq, entails, infeasible_cached
-from ..common import Model, norm, try_const, kw, call_name
+from ..common import module_dict_expr, Model, norm, try_const, kw, call_name
 from ..index import Scope, walk_local
 from ..segmodel import SegmentModel
 from .. import rp66_ref as ref
@@ -72,27 +72,29 @@ def r06_1_table(chk, it):
         elif fmt is not None and r is not None and r[1] is not None:
             chk.require(fmt.startswith(">") and struct.calcsize(fmt) == r[1], "R06.1", f"struct-size:{name}",
                         f"{name} format {fmt!r} is not big-endian of size {r[1]}", rc.where, nontrivial=False)
-    # the value reaches the packer unmodified
+    # the value reaches the packer unmodified (decided on the value-flow normal form: helpers and temporaries are
+    # looked through, so only what is finally packed counts)
+    from ..terms import SELF, A, alternatives, pp
     conv = rc.lookup("convert")
-    chk.consult(conv)
-    rets = [n for n in walk_local(conv.node) if isinstance(n, ast.Return) and n.value is not None]
-    ok = len(rets) == 1 and isinstance(rets[0].value, ast.Call) and norm(rets[0].value.func).endswith("converter.pack") \
-        and [norm(a) for a in rets[0].value.args] == ["value"]
-    assigns = [n for n in walk_local(conv.node) if isinstance(n, (ast.Assign, ast.AugAssign))]
-    chk.require(ok and not assigns, "R06.1", "value-reaches-pack-unmodified:convert",
-                "RepresentationCode.convert alters the value before packing (masking / clamping hides range errors)",
+    cs = chk.summary(conv)
+    val = ("param", conv.param_names[1])
+    packs = []
+    for _, t, _ in cs.returns:
+        for _, alt in alternatives(chk.terms.expand_calls(t, cs, depth=2)):
+            packs.append(alt)
+    ok = bool(packs) and all(a == ("call", ("attr", A(SELF, "converter"), "pack"), (val,), ()) for a in packs)
+    chk.require(ok and not cs.stores(), "R06.1", "value-reaches-pack-unmodified:convert",
+                f"RepresentationCode.convert returns `{'; '.join(pp(a)[:80] for a in packs[:2])}`: the value is altered "
+                f"before packing (masking / clamping hides range errors) or not packed by the member's own Struct",
                 conv.where)
     ws = ix.get_function("write_struct")
-    chk.consult(ws)
-    pname = ws.param_names[1]
-    stores = [n for n in walk_local(ws.node) if isinstance(n, (ast.Assign, ast.AugAssign)) and
-              any(isinstance(t, ast.Name) and t.id == pname for t in
-                  (n.targets if isinstance(n, ast.Assign) else [n.target]))]
-    uses = [n for n in walk_local(ws.node) if isinstance(n, ast.Call) and any(isinstance(a, ast.Name) and a.id == pname
-                                                                               for a in n.args)]
-    chk.require(not stores and len(uses) >= 2 and all(len(u.args) == 1 for u in uses), "R06.1",
-                "value-reaches-pack-unmodified:write_struct",
-                "write_struct alters the value before handing it to the encoder", ws.where)
+    wsum = chk.summary(ws)
+    pval = ("param", ws.param_names[1])
+    outs = [alt for _, t, _ in wsum.returns for _, alt in alternatives(t)]
+    ok = len(outs) >= 2 and all(a[0] == "call" and a[2] == (pval,) and not a[3] for a in outs)
+    chk.require(ok, "R06.1", "value-reaches-pack-unmodified:write_struct",
+                f"write_struct returns `{'; '.join(pp(a)[:80] for a in outs[:3])}`: the value is altered before it is "
+                f"handed to the encoder", ws.where)
 
 
 # ---------------------------------------------------------------------------------------------------- R06.2
@@ -211,28 +213,59 @@ def r06_3_ident_ascii(chk):
             chk.require(shape, "R06.3", f"ascii=UVARI(n)+n-bytes:path{k}",
                         "ASCII is not UVARI(length) followed by the characters", ascii_.where)
     _strict_ascii(chk, outs, "ascii", ascii_)
-    # emission sites: which emitter serves which field
-    sites = {
-        "Attribute._write_for_template": ("label", "ident"), "Attribute._write_for_body": ("units", "ident"),
-        "EFLRSet.__init__": ("set type", "ident"), "EFLRSet._make_set_component_bytes": ("set name", "ident"),
-        "write_struct_obname": ("object name", "ident"), "write_struct_objref": ("object type", "ident"),
-        "FileHeaderSet._make_template_bytes": ("header labels", "ident"),
+    # emission sites: which emitter serves which IDENT-typed field.  Decided over the summaries of *all* functions of the
+    # package: a field counts as emitted wherever a byte-producing call receives a term that reads it, so the rule
+    # does not depend on which method (or extracted helper) does the emitting.
+    from ..terms import SELF, A, K, subterms, call_name, call_arg, contains, pp
+    fields = {
+        "label": lambda t: t[0] == "attr" and t[2] in ("_label", "label") and t[1] == SELF,
+        "units": lambda t: t[0] == "attr" and t[2] in ("_units", "units") and t[1] == SELF,
+        "set type": lambda t: t[0] == "attr" and t[2] == "set_type",
+        "set name": lambda t: t[0] == "attr" and t[2] == "set_name" and t[1] == SELF,
+        "object name": lambda t: t == A(("param", "value"), "name"),
+        "header labels": lambda t: t in (K("SEQUENCE-NUMBER"), K("ID")),
     }
+    emitters = {k: {} for k in fields}
+    for f in ix.functions.values():
+        if not isinstance(f.node, (ast.FunctionDef, ast.AsyncFunctionDef)):
+            continue
+        fs = chk.terms.summary(f)
+        for c in fs.all_calls():
+            nm = call_name(c)
+            if nm in ("write_struct_ident", "write_struct_ascii", "get_ascii_bytes"):
+                arg, kind = call_arg(c, 0), nm
+            elif nm == "write_struct" and len(c[2]) == 2:
+                arg = c[2][1]
+                kind = "write_struct(" + pp(c[2][0]).split(".")[-1] + ")"
+            elif nm == "encode" and c[1][0] == "attr":
+                arg, kind = c[1][1], "str.encode"
+            else:
+                continue
+            if arg is None:
+                continue
+            for name, pred in fields.items():
+                if name == "header labels" and not (f.cls is not None and f.cls.name == "FileHeaderSet"):
+                    continue
+                if name == "set type" and f.cls is not None and f.cls.name not in ("EFLRSet",) and \
+                        nm != "write_struct_ident" and f.name != "write_struct_objref":
+                    pass
+                if contains(arg, pred):
+                    emitters[name].setdefault(kind, []).append(f)
     n_sites = 0
-    for fs, (what, want) in sites.items():
-        f = ix.get_method(*fs.split(".")) if "." in fs else ix.get_function(fs)
-        chk.consult(f)
-        callees = cg.callees(f)
-        uses_ident = ident is not None and ident in callees
-        uses_ascii = ascii_ in callees
-        n_sites += 1
-        chk.require(uses_ident and not uses_ascii, "R06.3", f"site:{fs}:{what}",
-                    f"{what} (an IDENT-typed field) is emitted through "
-                    f"{'the ASCII emitter' if uses_ascii else 'no IDENT emitter'}", f.where)
+    for name, found in emitters.items():
+        bad = {k: v for k, v in found.items() if k not in ("write_struct_ident", "write_struct(IDENT)")}
+        n_sites += sum(len(v) for v in found.values())
+        for fl in found.values():
+            chk.consult(*fl)
+        where = next(iter(found.values()))[0].where if found else ident.where if ident else ""
+        chk.require(bool(found) and not bad, "R06.3", f"ident-field:{name}",
+                    f"{name} (an IDENT-typed field) is emitted through "
+                    f"{sorted(bad) if bad else 'no IDENT emitter'}"
+                    f"{' in ' + ', '.join(f.short for v in bad.values() for f in v) if bad else ''}", where)
     chk.floor("IDENT emission sites", n_sites, 7)
     # dispatch entries
     sw = ix.get_function("write_struct")
-    d = sw.module.assigns.get("_struct_dict")
+    d = module_dict_expr(ix, sw.module, "_struct_dict")
     if not isinstance(d, ast.Dict):
         raise AnalysisError("dispatch table _struct_dict not found")
     table = {norm(k).split(".")[-1]: norm(v) for k, v in zip(d.keys, d.values)}
@@ -377,7 +410,9 @@ def r06_6_totality(chk, it):
     ix = chk.ix
     model = Model(ix)
     sw = ix.get_function("write_struct")
-    d = sw.module.assigns.get("_struct_dict")
+    d = module_dict_expr(ix, sw.module, "_struct_dict")
+    if not isinstance(d, ast.Dict):
+        raise AnalysisError("dispatch table _struct_dict not found")
     dispatch = {norm(k).split(".")[-1] for k in d.keys}
     producible = {}
     for dcl in model.decls:
